@@ -55,6 +55,9 @@ fn rand_value(rng: &mut Rng, poison: bool) -> V {
     if poison {
         return rand_method(rng, true);
     }
+    if rng.chance(1, 5) {
+        return V::Derived(rand_derr(rng));
+    }
     let opts = GenOpts { bad_key_one_in: 0, fail_one_in: 0 };
     let d = rng.below(5);
     rand_tree(rng, d, &opts)
